@@ -33,6 +33,10 @@ pub fn err_name(e: &Error) -> String {
         Error::InvalidHexLength => "InvalidHexLength".into(),
         Error::InvalidHexCharacter(..) => "InvalidHexCharacter".into(),
         Error::BytecodeTooLarge => "BytecodeTooLarge".into(),
+        // a variant this harness does not know (added by a later change to the library): named by its
+        // Debug rendering, so that the harness keeps compiling and the oracles see the error
+        #[allow(unreachable_patterns)]
+        other => format!("{other:?}").split(|c: char| !c.is_alphanumeric()).next().unwrap_or("?").to_string(),
     }
 }
 
